@@ -427,6 +427,8 @@ def o5(W, ob):
 
 from . import casts
 
+from . import mustcall
+
 OBLIGATIONS = [
     ('C14.O1', 'totality of decode', 'no open panic-capable site and no unreviewed external callee in the call-graph closure of '
      'compression::decode; every site is discharged by analysis (no review entries): every byte string yields Ok or Err.', o1),
@@ -440,4 +442,5 @@ OBLIGATIONS = [
      'under the same bit, run appended to the current length.', o4, {'deps': True}),
     ('C14.O5', 'record-local state', 'each codec loop (rle_decode, delta_decode, delta_encode) handles one record per iteration; loop-carried-state analysis (liveness at the loop header) shows that only buffers, iterators, the reference input and a position in the input survive from one record to the next (a scalar that feeds nothing but comparisons and its own update -- a budget -- is allowed): no scalar accumulator (varint shift, value, flag) leaks into the next record.', o5),
     ('C14.C', 'lossy integer casts', 'every sign-changing cast (signed -> unsigned; NULL_FRAME is -1) and every narrowing cast to < 32 bits or from 128 bits in the crate is in range by a dominating guard, by the shape of its operand, or listed with a reason in tables/casts.json; see rules/casts.py', casts.rule),
+    ('C14.M', 'must-call floor', 'the calls listed for this property in tables/must_call.json are made on every path from the entry of their function to a normal return (interprocedural must-call): a new early return, fast path or extra condition in front of one of them is reported; see rules/mustcall.py', mustcall.rule_for('C14')),
 ]
